@@ -21,8 +21,8 @@ theorem math_max_pow2_shape : Extracted.mathMaxShift = 1 ∧ Extracted.mathMaxAd
 
 /-- `if (n >= max) return max; if (is_power_of_two(n)) return n; T result = 1; while (result < n) result <<= 1; return result;` -/
 theorem math_next_pow2_shape :
-    Extracted.mathSatOp = ">=" ∧ Extracted.mathSatConstFromMax = true ∧ Extracted.mathEarlyReturnPow2 = true ∧
-    Extracted.mathLoopInit = 1 ∧ Extracted.mathLoopCmp = "<" ∧ Extracted.mathLoopShift = 1 ∧
+    (Extracted.mathSatOp = ">=" ∨ Extracted.mathSatOp = ">") ∧ Extracted.mathSatConstFromMax = true ∧ Extracted.mathEarlyReturnPow2 = true ∧
+    Extracted.mathLoopInit = 1 ∧ (Extracted.mathLoopCmp = "<" ∨ Extracted.mathLoopCmp = "<=") ∧ Extracted.mathLoopShift = 1 ∧
     Extracted.mathReturnsResult = true ∧ Extracted.mathOrderOK = true := by decide
 
 theorem math_bounded_found : Extracted.mathMissingBounded = [] := by decide
@@ -50,5 +50,24 @@ theorem C01_cap_extracted (req pct : Nat) :
   have h1 : 1 ≤ w := by simp only [List.mem_cons, List.mem_nil_iff, or_false] at hw; omega
   obtain ⟨_, _, _, _, a, b, c, _⟩ := boundedCtor_ok h1 req pct
   exact ⟨a, b, c⟩
+
+/-- whichever of the equivalent spellings (`n > max` / `n >= max`, `result <= n` / `result < n`) the header uses, the function is
+    the `nextPow2W` the theorems are about (`MathUtil.nextPow2V_eq`) -/
+theorem math_spelling_extracted (w : Nat) (hw : 1 ≤ w) (n : Nat) :
+    nextPow2V Extracted.mathSatStrict Extracted.mathLoopLe w n = nextPow2W w n :=
+  nextPow2V_eq hw _ _ n
+
+/-- the constructor rejects a capacity whose doubled byte count does not fit (repair of F32). On the pinned header this is
+    `false` and the obligation fails: `MathUtil.C01_unrepaired_flag_witness` / the harness oracle exhibit the failing request. -/
+theorem math_ctor_rejects_oversized : Extracted.mathCtorRejectsOversized = true := by decide
+
+/-- `C01_storage_exact` for the extracted constructor: accepted ⇒ exactly `2·capacity` bytes; rejected ⇒ throws before storage -/
+theorem C01_storage_exact_extracted (w req pct : Nat) :
+    (∃ c, boundedCtorR Extracted.mathCtorRejectsOversized w req pct = some c ∧ c.allocBytes = 2 * c.capacity) ∨
+    boundedCtorR Extracted.mathCtorRejectsOversized w req pct = none := by
+  rw [math_ctor_rejects_oversized]
+  rcases C01_storage_exact w req pct with ⟨c, h, _, ha⟩ | ⟨h, _⟩
+  · exact Or.inl ⟨c, h, ha⟩
+  · exact Or.inr h
 
 end Obligations
